@@ -451,8 +451,10 @@ func termOf(part string) string {
 	return ""
 }
 
+// the snapshot format of sim.FSM: count, then one word per applied payload
 func snapData(ops []uint64) []byte {
-	var b []byte
+	n := len(ops)
+	b := []byte{byte(n >> 24), byte(n >> 16), byte(n >> 8), byte(n)}
 	for _, p := range ops {
 		b = append(b, byte(p>>24), byte(p>>16), byte(p>>8), byte(p))
 	}
